@@ -777,6 +777,77 @@ def selections(m, rng):
     return sels
 
 
+def atom_bag(mols):
+    return sorted((a.atomic_number, a.isotope or 0, a.charge, a.is_radical, -1 if a.implicit_hydrogens is None else a.implicit_hydrogens)
+                  for m in mols for _, a in m.atoms())
+
+
+def compose_oracles(ck, tag, m1, m2, rng):
+    """property-level oracles for union / split / substructure on the real code, none of which uses the model:
+    the union holds the atoms of both parts (as a multiset of element, isotope, charge, radical, hydrogens) and its totals are
+    the sums; the parts of split() hold the atoms of the molecule, each once, hydrogens unchanged, totals add up; a whole
+    component taken with and without recalculation is the same when every stored count is a fresh one; a substructure that
+    cuts bonds gets the counts of the same fragment built from scratch through add_atom / add_bond; nothing raises"""
+    from chython import MoleculeContainer
+    key = ':'.join(str(x) for x in tag)
+    inp = {'a': str(m1), 'b': str(m2)}
+    rp = (f"from chython import smiles\na, b = smiles({str(m1)!r}), smiles({str(m2)!r})\nu = a.union(b, remap=True)\n"
+          "print(len(a), len(b), len(u), u.brutto if all(x.implicit_hydrogens is not None for _, x in u.atoms()) else None)\n"
+          "print([[(n, x.atomic_symbol, x.implicit_hydrogens) for n, x in p.atoms()] for p in u.split()])")
+    try:
+        u = m1.union(m2, remap=True)
+        if atom_bag([u]) != atom_bag([m1, m2]) or set(m1) - set(u):
+            ck.counterexample(f'union-atoms:{key}', 'union(remap=True) does not hold exactly the atoms of the two molecules (elements, isotopes, charges, radicals, hydrogen counts)',
+                              inp, [len(u), atom_bag([u])[:6]], [len(m1) + len(m2), atom_bag([m1, m2])[:6]], 'multiset of atoms', replay_py=rp)
+            return
+        clean = all(a.implicit_hydrogens is not None for _, a in u.atoms())
+        parts = u.split()
+        if atom_bag(parts) != atom_bag([u]) or sorted(n for p_ in parts for n in p_) != sorted(u):
+            ck.counterexample(f'split-atoms:{key}', 'the parts of split() do not hold exactly the atoms of the molecule with their hydrogen counts',
+                              inp, atom_bag(parts)[:8], atom_bag([u])[:8], 'multiset of atoms', replay_py=rp)
+            return
+        if clean:
+            bsum = collections.Counter()
+            for p_ in parts:
+                for k, v in p_.brutto.items():
+                    bsum[k] += v
+            b12 = collections.Counter(m1.copy().brutto)
+            b12.update(m2.copy().brutto)
+            nz = lambda d: {k: v for k, v in d.items() if v}
+            if nz(bsum) != nz(u.brutto) or nz(b12) != nz(u.brutto) or sum(int(p_) for p_ in parts) != int(u) or int(u) != int(m1.copy()) + int(m2.copy()) or \
+                    abs(sum(float(p_) for p_ in parts) - float(u)) > 1e-6 or any(p_.is_radical for p_ in parts) != u.is_radical:
+                ck.counterexample(f'split-totals:{key}', 'formula / charge / radical flag / mass are not additive over union and split()',
+                                  inp, [nz(bsum), sum(int(p_) for p_ in parts)], [nz(u.brutto), int(u)], 'additivity', replay_py=rp)
+                return
+        c = u.copy()
+        for n in c:
+            c.calc_implicit(n)
+        fresh = all(c._atoms[n].implicit_hydrogens == a.implicit_hydrogens for n, a in u.atoms())
+        if fresh:
+            for comp in u.connected_components:
+                a_, b_ = u.substructure(comp, recalculate_hydrogens=True), u.substructure(comp, recalculate_hydrogens=False)
+                ha, hb = [(n, x.implicit_hydrogens) for n, x in a_.atoms()], [(n, x.implicit_hydrogens) for n, x in b_.atoms()]
+                if ha != hb or [n for n, _ in ha] != [n for n in u if n in comp]:
+                    ck.counterexample(f'split-switch:{key}:{min(comp)}', 'a whole component taken with and without hydrogen recalculation differs (all stored counts were fresh)',
+                                      dict(inp, component=sorted(comp)), ha, hb, 'calc_implicit depends on the atom and its bonds only', replay_py=rp)
+                    return
+        n0 = rng.choice(list(u))
+        ball = {n0} | set(u._bonds[n0]) | {k for x in u._bonds[n0] for k in u._bonds[x]}
+        sub = u.substructure(ball)
+        scratch = MoleculeContainer()
+        for n in sub:
+            scratch.add_atom(u._atoms[n].copy(), n)
+        for n, k, bd in sub.bonds():
+            scratch.add_bond(n, k, int(bd))
+        hs, hr = [(n, x.implicit_hydrogens) for n, x in sub.atoms()], [(n, x.implicit_hydrogens) for n, x in scratch.atoms()]
+        if hs != hr or set(sub) != ball:
+            ck.counterexample(f'sub-rebuild:{key}:{n0}', 'hydrogen counts of substructure() differ from the same fragment built from scratch',
+                              dict(inp, atoms=sorted(ball)), hs, hr, 'rebuild through add_atom / add_bond', replay_py=rp)
+    except Exception as e:
+        ck.counterexample(f'compose-raises:{key}', f'union / split / substructure of two valid molecules raised {type(e).__name__}: {e}', inp, type(e).__name__, 'no exception',
+                          'union / split / substructure are total on valid molecules', replay_py=rp)
+
+
 def corr_compose(ck):
     rng = random.Random(f'{ck.seed}:c04:compose')
     pool = compose_pool(ck, rng)
@@ -827,6 +898,12 @@ def corr_compose(ck):
     if not good:
         ck.unchecked('correspondence ValenceArom.union_py / substructure / split_with vs Graph.union / MoleculeContainer.substructure / split', log[-1500:],
                      [repr(meta[i]) + ' :: ' + cases[i][:1500] for i in failing[:20]])
+        # directed search: the property-level oracles on and around the disagreeing molecules
+        capped = Capped(ck, 5)
+        todo = sorted({i // 2 for i in failing}) or list(range(len(pool)))
+        for k in todo[:60]:
+            for other in (pool[k], pool[(k + 1) % len(pool)], pool[(k + 7) % len(pool)]):
+                compose_oracles(capped, ('directed', k, str(other)), pool[k], other, rng)
     return good
 
 
@@ -1295,46 +1372,12 @@ def search(ck):
                                   'sums re-derived from the atoms',
                                   replay_py=f"from chython import smiles; m=smiles({smi!r}); m.kekule(); print(m.brutto,int(m)); \nwith m: m.atom({n}).charge=-1\nprint(m.brutto,int(m),[(k,a.charge,a.implicit_hydrogens) for k,a in m.atoms()])")
                 break
-    # split / substructure on the real code: the parts of split() carry the totals of the whole; a whole component taken with
-    # and without recalculation is the same molecule (Kekule forms: every stored count is a fresh one); a substructure that
-    # cuts bonds gets the counts of the same fragment built from scratch through add_atom / add_bond
-    from chython import MoleculeContainer
+    # union / split / substructure on the real code (see compose_oracles)
     for i in range(0, min(len(parsed) - 1, 240 if ck.tier == 'quick' else 2400), 2):
         (s1, m1), (s2, m2) = parsed[i], parsed[i + 1]
-        if any(a.implicit_hydrogens is None for mm in (m1, m2) for _, a in mm.atoms()):
-            continue
-        u = m1.union(m2, remap=True)
         ck.case(('split', s1, s2))
-        ck.count('search:split / substructure molecules')
-        parts = u.split()
-        bsum = collections.Counter()
-        for p_ in parts:
-            for k, v in p_.brutto.items():
-                bsum[k] += v
-        if {k: v for k, v in bsum.items() if v} != {k: v for k, v in u.brutto.items() if v} or sum(int(p_) for p_ in parts) != int(u) or \
-                abs(sum(float(p_) for p_ in parts) - float(u)) > 1e-6 or any(p_.is_radical for p_ in parts) != u.is_radical or \
-                sorted(n for p_ in parts for n in p_) != sorted(u):
-            ck.counterexample(f'split-totals:{s1}:{s2}', 'the parts of split() do not carry the atoms / formula / charge / radical flag / mass of the molecule',
-                              {'a': s1, 'b': s2}, [dict(bsum), sum(int(p_) for p_ in parts)], [dict(u.brutto), int(u)], 'additivity over components')
-        for comp in u.connected_components:
-            a_, b_ = u.substructure(comp, recalculate_hydrogens=True), u.substructure(comp, recalculate_hydrogens=False)
-            ha, hb = [(n, x.implicit_hydrogens) for n, x in a_.atoms()], [(n, x.implicit_hydrogens) for n, x in b_.atoms()]
-            if ha != hb:
-                ck.counterexample(f'split-switch:{s1}:{s2}:{min(comp)}', 'a whole component taken with and without hydrogen recalculation differs',
-                                  {'a': s1, 'b': s2, 'component': sorted(comp)}, ha, hb, 'calc_implicit depends on the atom and its bonds only')
-        n0 = rng.choice(list(u))
-        ball = {n0} | set(u._bonds[n0]) | {k for x in u._bonds[n0] for k in u._bonds[x]}
-        sub = u.substructure(ball)
-        scratch = MoleculeContainer()
-        for n in sub:
-            x = u._atoms[n]
-            scratch.add_atom(x.copy(), n)
-        for n, k, bd in sub.bonds():
-            scratch.add_bond(n, k, int(bd))
-        hs, hr = [(n, x.implicit_hydrogens) for n, x in sub.atoms()], [(n, x.implicit_hydrogens) for n, x in scratch.atoms()]
-        if hs != hr or set(sub) != ball:
-            ck.counterexample(f'sub-rebuild:{s1}:{s2}:{n0}', 'hydrogen counts of substructure() differ from the same fragment built from scratch',
-                              {'a': s1, 'b': s2, 'atoms': sorted(ball)}, hs, hr, 'rebuild through add_atom / add_bond')
+        ck.count('search:union / split / substructure pairs')
+        compose_oracles(ck, (s1, s2), m1, m2, rng)
     # split() keeps the stored counts (no recalculation): on molecules AS READ, whose aromatic heteroatoms carry the count the
     # SMILES gave them ([nH]) and would get None from calc_implicit, every atom keeps its count through split()
     n_ar = 0
@@ -1359,6 +1402,7 @@ def search(ck):
                               {n: (before[n], after.get(n)) for n in before if before[n] != after.get(n)}, 'unchanged counts', 'atoms of the parts vs atoms of the molecule',
                               replay_py=f"from chython import smiles; m = smiles({smi!r}); print([(n, a.implicit_hydrogens) for n, a in m.atoms()], [[(n, a.implicit_hydrogens) for n, a in p.atoms()] for p in m.split()])")
     # boundary: the empty molecule
+    from chython import MoleculeContainer
     try:
         v = float(MoleculeContainer())
         if v != 0.0:
@@ -1421,8 +1465,15 @@ def run(ck):
         ck.extra.setdefault('step_seconds', {})[name] = round(t[-1] - t[-2], 1)
 
     proved = common.standard_proof_steps(ck, translators=['elements'])
+    directed_done = False
     if not proved:
-        # the correspondence needs only the model files: build them even when a proof file no longer compiles
+        # a translator / table theorem broke: look for a concrete molecule FIRST (whatever happens to the later steps), then
+        # build the model files the correspondence needs (they do not depend on the proof files)
+        try:
+            directed_tables(ck)
+            directed_done = True
+        except Exception as e:
+            ck.count(f'directed search crashed: {type(e).__name__}')
         common.coq_make(['model/Valence.vo', 'model/ValenceArom.vo'])
     lap('proof')
     tied_a = corr_tables(ck)
@@ -1435,7 +1486,8 @@ def run(ck):
     lap('molecules')
     tied_e = corr_compose(ck)
     lap('compose')
-    directed_tables(ck)
+    if not directed_done:
+        directed_tables(ck)
     lap('directed')
     search(ck)
     lap('search')
